@@ -105,3 +105,28 @@ Proof.
                              (bilateral_kernel gk rk data win));
     try assumption; try lia. intros; reflexivity.
 Qed.
+
+Corollary median_loop_is_skeleton_at : forall sk w ny nx (data : map2) sy sx env0 r c,
+  filter_skeleton_ok KNanMedian sk = true -> 0 <= w -> w <= ny -> w <= nx ->
+  median_filter (sk_B sk) w ny nx data r c
+  = if is_none (data r c) then None
+    else snd (exec (median_kernel data w) w (ny - w + 1) (nx - w + 1) (sk_target 0 sk) sk sy sx (env0, data)) r c.
+Proof.
+  intros sk w ny nx data sy sx env0 r c Hok H0 Hy Hx.
+  destruct (filter_skeleton_ok_parts _ sk Hok) as (_ & _ & _ & wr & Hw & _).
+  unfold sk_target. rewrite Hw. cbn [nth_error]. apply median_loop_is_skeleton; assumption.
+Qed.
+
+Corollary bilateral_loop_is_skeleton_at : forall sk ny nx sigma gk rk (data : map2) sy sx env0 r c,
+  filter_skeleton_ok KBilateral sk = true ->
+  let win := win_width ny nx sigma in
+  0 <= win ->
+  filter_bilateral (sk_B sk) ny nx sigma gk rk data r c
+  = if is_none (data r c) then None
+    else snd (exec (bilateral_kernel gk rk data win) win (ny - win + 1) (nx - win + 1) (sk_target 0 sk) sk sy sx
+                   (env0, data)) r c.
+Proof.
+  intros sk ny nx sigma gk rk data sy sx env0 r c Hok win Hwin.
+  destruct (filter_skeleton_ok_parts _ sk Hok) as (_ & _ & _ & wr & Hw & _).
+  unfold sk_target. rewrite Hw. cbn [nth_error]. apply bilateral_loop_is_skeleton; assumption.
+Qed.
